@@ -21,6 +21,7 @@ func Finalize() {
 	}
 	registerC16(names)
 	registerC18(names)
+	registerC20()
 	required := []string{"first_installation_succeeded", "reinstall_attempt"}
 	for _, n := range names {
 		required = append(required, "reinstall_attempt:"+n) // every router with a driver must be exercised in every batch
